@@ -71,7 +71,7 @@ def _cli_case(draw, tier):
     names = [t["name"] for t in desc["targets"]]
     vec = {n: draw(st.sampled_from(hist.VEC_STATES)) for n in names}
     pats = draw(st.one_of(st.just([]), gen.patterns(names)))
-    return {"kind": "cli", "desc": desc, "backend": draw(st.sampled_from(["slurm", "slurm", "sge", "lsf"])),
+    return {"kind": "cli", "desc": desc, "invoke": draw(gen.invoke()), "backend": draw(st.sampled_from(["slurm", "slurm", "sge", "lsf"])),
             "vector": vec, "patterns": pats}
 
 
@@ -164,7 +164,7 @@ def run_cli(case):
     requested = model.match_names(names, pats) if pats else R.endpoints()
     want_status, subs = R.plan(requested, eff)
     viols = []
-    with project.Project(desc, backend=flavour) as proj:
+    with project.Project(desc, backend=flavour, invoke=case.get("invoke")) as proj:
         sources = {p: (t if t is not None else 1) for p, t in desc["files"].items() if p not in R.producers}
         proj.set_files(sources)
         hist.prepopulate(proj, R, vec)
